@@ -31,6 +31,7 @@ import CdnsVerif.Proofs.DenoteWrite
 import CdnsVerif.Proofs.ConformsB
 import CdnsVerif.Model.File
 import CdnsVerif.Proofs.Resolve
+import CdnsVerif.Proofs.ResolveAec
 import CdnsVerif.Props.C06
 import CdnsVerif.Props.C17
 
@@ -141,6 +142,16 @@ open CdnsVerif.Model.Builder in
     unchanged – address, ports, flags, payload byte for byte – in the original order; with the hint off none is stored -/
 theorem malformed_messages_read_back (h : Hints) (recs : List Rec) :
     (build h recs).mms.map (resolveM (build h recs)) = expectedMms h recs := resolve_build_mm h recs
+
+open CdnsVerif.Model.Builder in
+/-- every address-event key has a total count equal to the number of times it was buffered -/
+theorem address_event_totals (h : Hints) (recs : List Rec) (k : GAEC) : countFor (build h recs) k = timesBuffered h recs k :=
+  aec_counts h recs k
+
+open CdnsVerif.Model.Builder in
+/-- each block carries the statistics most recently supplied while it was being filled -/
+theorem block_statistics_latest (h : Hints) (recs : List Rec) : (build h recs).stats = (recs.filterMap statOf).getLast? :=
+  stats_latest h recs
 
 open CdnsVerif.Model.Builder in
 theorem stored_iff_nonempty (h : Hints) (g : GQR) (b : Blk) : (buildQ h g b).2.filled = (project h g).anySome :=
